@@ -382,7 +382,15 @@ impl Watcher {
             // WARNING(deadlock): Don't lock `self.dbm` over the loop since `Responder::handle_breach` uses it as well.
             let uuids = self.dbm.lock().unwrap().load_uuids(locator);
             for uuid in uuids {
-                let appointment = self.dbm.lock().unwrap().load_appointment(uuid).unwrap();
+                // The appointment may have been deleted since its uuid was loaded: its owner sent it again, it was triggered
+                // from the cache in the API thread and it bounced in the Responder.
+                let appointment = match self.dbm.lock().unwrap().load_appointment(uuid) {
+                    Some(appointment) => appointment,
+                    None => {
+                        log::info!("Appointment {uuid} is not in the database anymore. Skipping it");
+                        continue;
+                    }
+                };
                 match cryptography::decrypt(
                     appointment.encrypted_blob(),
                     &dispute_tx.compute_txid(),
